@@ -1,6 +1,6 @@
 """C15 - restricting the stages makes an evaluation a side-effect-free dry run (engine P, twin histories)."""
 from ..core.util import new_scratch, rmtree
-from ..pipe import gen, hist, twin
+from ..pipe import gen, hist, ir, twin
 from ..pipe.world import World
 from . import c01
 
@@ -21,7 +21,7 @@ RULE = (
 )
 COMPONENTS = c01.COMPONENTS
 ASSUMPTIONS = c01.ASSUMPTIONS
-PROBES = ["analysis_only", "eval_without_path_commit", "restricted_on_populated_store", "twin_ops_compared",
+PROBES = ["dry_run_then_mutation_then_full_run", "analysis_only", "eval_without_path_commit", "restricted_on_populated_store", "twin_ops_compared",
           "enum_spelling", "mixed_case_spelling"]
 ORDER = ["analysis", "store_inspect", "eval", "store_commit", "path_commit"]
 
@@ -58,7 +58,18 @@ def gen_case(streams, tier, avoid):
         stages = [_spell(f, s) for s in ORDER[:k]]
         new = {"op": "eval", "entry": op["entry"], "style": "eval", "snap": True, "restricted": True,
                "opts": {"dds_stages": stages}}
-        case["ops"].insert(pos + f.choice([0, 1]), new)
+        at = pos + f.choice([0, 1])
+        case["ops"].insert(at, new)
+        prog = case["prog"]
+        free = [v for v in sorted(prog["vars"])
+                if not any(ir.default_var(d) == v for g in prog["funcs"].values() for (_, d) in g["params"])]
+        if free and f.random() < 0.4:
+            # dry run, then an input of the analysis changes inside the same process, then the full run of the same
+            # function (no other evaluation in between)
+            v = f.choice(free)
+            kind = prog["vars"][v]["kind"]
+            case["ops"].insert(at + 1, {"op": "mutate", "var": v, "value": f.choice(gen.VAR_VALUES[kind]), "inplace": f.random() < 0.3})
+            case["ops"].insert(at + 2, {"op": "eval", "entry": op["entry"], "style": "eval"})
         evals = [i for i, op in enumerate(case["ops"]) if op["op"] == "eval"]
     return case
 
@@ -78,6 +89,9 @@ def run_case(case):
         def probe(n):
             probes[n] = probes.get(n, 0) + 1
 
+        for a, b in zip(case["ops"], case["ops"][1:]):
+            if a.get("restricted") and b["op"] == "mutate":
+                probe("dry_run_then_mutation_then_full_run")
         restricted = [o for o in w.obs if o["op"] == "eval" and o["opts"].get("dds_stages")]
         nontrivial = False
         for o in restricted:
